@@ -424,6 +424,8 @@ def ellipse(cx):
 
 
 def run(cx):
+    from ..rules import exits_of
+    exits_of(cx, 'EXITS', ['gate.start_end', 'gate.high_low', 'gate.ellipse'])
     start_end(cx)
     high_low(cx)
     ellipse(cx)
